@@ -21,6 +21,9 @@ CLASS_FILE = os.path.join(vf.VERIF, "checks", "c01_classA.txt")
 SPACES = ["R2", "SE2", "R3", "CMP", "SE3", "R6"]
 ENVS = ["gap", "thin", "thin2", "boxes3", "circles5", "empty", "blocked", "boxes8"]
 NONSYM = {"DUBINS"}
+# planners that only ever traverse a motion in the direction in which it was validated (forward trees, RRTConnect's explicit handling
+# of the goal tree, RRT*'s symmetric-interpolation test): the quantifier asks for Dubins / Reeds-Shepp spaces with these
+DIRECTION_AWARE = "RRT RRTi RRTConnect pRRT LazyRRT TRRT RRTstar EST ProjEST KPIECE1 PDST STRIDE SST RLRT".split()
 
 
 def class_a():
@@ -43,6 +46,11 @@ def gen_jobs(rng, quick):
             secs = (0.4 if quick else 1.0) if p in ANYTIME else (0.5 if (quick and env == "blocked") else 2.0)
             iters = 20000 if p in ANYTIME else 200000
             jobs.append("RUN %s %s %s %d %g %g %g %d %d %g" % (p, sp, env, q, rngv, res, thr, seed, iters, secs))
+        if p in DIRECTION_AWARE:
+            for k in range(2 if quick else 16):
+                sp = ["DUBINS", "RS"][k % 2]; env = ["gap", "thin", "boxes3", "circles5"][k % 4] if not quick else ["gap", "thin"][k]
+                jobs.append("RUN %s %s %s %d %g %g %g %d %d %g" % (p, sp, env, rng.randint(0, 3), rng.choice([0, 0.3]), 0.01, 0.05, rng.randint(1, 10 ** 6),
+                            20000 if p in ANYTIME else 200000, (0.4 if quick else 1.0) if p in ANYTIME else 2.0))
         # EIT* with non-default sparse collision checks on thin walls (documented, user-settable)
     for k in ([4] if quick else [2, 3, 4, 5]):
         for j in range(1 if quick else 10):
@@ -162,6 +170,9 @@ def main():
             if thr == 0.0 and "outside the threshold" in msg and d["P"][-1]["gdist"] == 0 and \
                c.known_finding("C01-zero-threshold-goal-region", "%s: threshold 0 makes the goal region empty (GoalRegion::isSatisfied is d < threshold), yet the planner reports EXACT_SOLUTION with a path ending on the goal state itself ('%s')" % (pl, j)):
                 stats["known_zero_threshold"] += 1; msg = None; v = "ok"
+        if msg and j.split()[2] in ("DUBINS", "RS") and "outside the space bounds" in msg and \
+           c.known_finding("C01-dubins-family-path-leaves-bounds", "%s on the %s space: %s — states produced by DubinsStateSpace / ReedsSheppStateSpace::interpolate (steering towards a sample, intermediate states) leave the bounds although both end states are inside; the planners add them without a bounds test ('%s')" % (pl, j.split()[2], msg, j)):
+            stats["known_dubins_bounds"] += 1; msg = None; v = "ok"
         if msg:
             npred += 1; failures[pl + ": " + msg.split(" (")[0][:70]] += 1
             if first_pred is None: first_pred = (j, msg)
@@ -176,7 +187,7 @@ def main():
         stats["verdict_" + v] += 1
     nsolved = sum(solved.values())
     c.cov.update({"evaluations": len(jobs), "traces_validated_against_impl": len(jobs) - stats["skipped"] - stats["crashed"], "distinct_nontrivial": nsolved,
-                  "rule": "planner table: %d planners x spaces {R2,SE2,R3,CMP,SE3,R6} x environments {narrow gap, thin walls of 1.1-1.3 resolution lengths, blocked (no solution), random boxes / circles, empty} x 4 queries (1-2 starts) x range {default,.05,.3,1.5} x resolution {.5,1,2 %%} x goal threshold {0,.01,.05,.2} x random seeds; EIT* additionally with 2..5 initial sparse collision checks on thin / blocking walls; non-trivial = run that reported a solution path (every clause of the statement is evaluated on it)" % len(PLANNERS),
+                  "rule": "planner table: %d planners x spaces {R2,SE2,R3,CMP,SE3,R6; Dubins and Reeds-Shepp for the 14 direction-aware planners} x environments {narrow gap, thin walls of 1.1-1.3 resolution lengths, blocked (no solution), random boxes / circles, empty} x 4 queries (1-2 starts) x range {default,.05,.3,1.5} x resolution {.5,1,2 %%} x goal threshold {0,.01,.05,.2} x random seeds; EIT* additionally with 2..5 initial sparse collision checks on thin / blocking walls; non-trivial = run that reported a solution path (every clause of the statement is evaluated on it)" % len(PLANNERS),
                   "disagreements": ndiff, "predicate_failures": npred, "predicate_failures_by_kind": dict(failures), "status_histogram": dict(stats), "solved_by_planner": dict(solved),
                   "fully_covered_by_accepted_motions": dict(covered_all), "class_A": sorted(A), "skipped": skipped, "excluded_planners": EXCLUDED,
                   "crashed_before_report": [(j, rc) for j, rc, e in crashed][:20]})
